@@ -56,9 +56,13 @@ func (c Case) clone() Case {
 
 // Result is the outcome of running one case.
 type Result struct {
-	Verdict     string           `json:"verdict"` // ok | violation | inconclusive
+	Verdict     string           `json:"verdict"` // ok | violation | inconclusive | infra
 	Class       string           `json:"class,omitempty"`
 	Detail      string           `json:"detail,omitempty"`
+	// Classes lists every violation class of the run when one run can show several independent ones
+	// (C10: each race report is its own class); Class is then the first of them. Details maps class -> detail.
+	Classes []string          `json:"classes,omitempty"`
+	Details map[string]string `json:"details,omitempty"`
 	Nontrivial  bool             `json:"nontrivial"`
 	Fingerprint uint64           `json:"fingerprint"`
 	TraceHash   uint64           `json:"trace_hash"`
@@ -69,6 +73,29 @@ type Result struct {
 	// PreemptSteps is filled by scheduled runs so the shrinker can switch the
 	// case to an explicit preemption list.
 	PreemptSteps []int64 `json:"-"`
+}
+
+// hasClass reports whether the run showed the given violation class.
+func (r *Result) hasClass(class string) bool {
+	if r.Verdict != "violation" {
+		return false
+	}
+	if r.Class == class {
+		return true
+	}
+	for _, c := range r.Classes {
+		if c == class {
+			return true
+		}
+	}
+	return false
+}
+
+func (r *Result) detailOf(class string) string {
+	if d, ok := r.Details[class]; ok {
+		return d
+	}
+	return r.Detail
 }
 
 func (r *Result) count(k string, n int64) {
